@@ -123,7 +123,7 @@ func registerTimeStubs() {
 
 	// Duration
 	stubs["(time.Duration).Seconds"] = func(m *Machine, fr *frame, fn *ssa.Function, a []Val) Val {
-		return time.Duration(cInt(m, a[0], "Duration.Seconds")).Seconds()
+		return time.Duration(m.concretize(a[0])).Seconds()
 	}
 	stubs["(time.Duration).String"] = func(m *Machine, fr *frame, fn *ssa.Function, a []Val) Val {
 		return time.Duration(cInt(m, a[0], "Duration.String")).String()
